@@ -8,6 +8,8 @@ import (
 	"math/rand"
 	"net"
 	"strings"
+	"sync"
+	"sync/atomic"
 	"time"
 
 	"github.com/bartossh/Computantis/src/accountant"
@@ -432,7 +434,80 @@ func (e *c15env) connData(owner *ledger.Actor, addr, url string, createdAt uint6
 	return &protobufcompiled.ConnectionData{PublicAddress: addr, Url: url, CreatedAt: createdAt, Digest: d[:], Signature: s}
 }
 
+// c15Concurrent: requests do not come one at a time. Many clients call the read endpoints at the same moment with
+// challenges that are fresh, expired (a node with a one second challenge life), foreign or missing, and propose /
+// gossip at the same time. A crash of the process (also a runtime throw that no recover() sees) ends the worker and is
+// attributed by the journal; nothing else is judged here.
+func c15Concurrent(w *core.WorkerCtx) {
+	r := w.R
+	rig, err := svc.New(4, 1, 2048)
+	if err != nil {
+		r.Inconc("cannot build the node: " + err.Error())
+		return
+	}
+	defer rig.Close()
+	ctx := context.Background()
+	rounds := w.Pick(4, 24)
+	var actors []*ledger.Actor
+	for i := 0; i < 2000; i++ {
+		actors = append(actors, ledger.NewActor("c"))
+	}
+	for round := 0; round < rounds; round++ {
+		w.Mark("concurrent requests round %d (expired challenges: %v)", round, round%2 == 0)
+		reqs := make([]*protobufcompiled.SignedHash, len(actors))
+		for i, a := range actors {
+			if b, err := rig.Notary.Data(ctx, &protobufcompiled.Address{Public: a.Addr}); err == nil && b != nil {
+				if i%8 == 0 {
+					reqs[i] = svc.Sign(a, b.Blob)
+				} else {
+					// the challenge is looked at before the signature: most requests need none
+					reqs[i] = &protobufcompiled.SignedHash{Address: a.Addr, Data: b.Blob, Hash: make([]byte, 32), Signature: make([]byte, 64)}
+				}
+			}
+		}
+		// half of the rounds: let the challenges expire (life time 1 s; the cleaner only runs every 2 s)
+		if round%2 == 0 {
+			time.Sleep(1050 * time.Millisecond)
+		}
+		var wg sync.WaitGroup
+		start := make(chan struct{})
+		var calls atomic.Int64
+		for g := 0; g < 16; g++ {
+			wg.Add(1)
+			go func(g int) {
+				defer wg.Done()
+				<-start
+				n := len(actors)
+				for k := 0; k < n; k++ {
+					i := (k + g*(n/16)) % n
+					req := reqs[i]
+					if req == nil {
+						continue
+					}
+					switch (g + k) % 5 {
+					case 0, 1:
+						rig.Notary.Waiting(ctx, req)
+					case 2, 3:
+						rig.Notary.TransactionsInDAG(ctx, req)
+					default:
+						rig.Notary.Data(ctx, &protobufcompiled.Address{Public: req.Address})
+					}
+					calls.Add(1)
+				}
+			}(g)
+		}
+		close(start)
+		wg.Wait()
+		r.Eval(int(calls.Load()))
+		r.Count("c15_concurrent_calls", int(calls.Load()))
+		r.Nontriv(fmt.Sprintf("concurrent/expired=%v", round%2 == 0))
+	}
+}
+
 func c15Worker(w *core.WorkerCtx) {
+	if w.Batch%4 == 1 {
+		c15Concurrent(w)
+	}
 	rng := core.Rand(w.Seed, "C15", w.Batch)
 	rig, err := svc.New(4, 60, 2048)
 	if err != nil {
@@ -855,7 +930,7 @@ func init() {
 	core.Register(&core.Check{
 		Spec: core.Spec{
 			Prop:        "C15",
-			Rule:        "Every handler of the notary, gossip and webhooks services (built through the hooks on one real node with real ledger, caches, challenge provider, juggler and stub peers) is called directly under recover(). Request shapes: for SignedHash requests (Reject, Saved, Balance, Waiting, TransactionsInDAG, GetVertex, Webhooks) the full product of address {empty, junk, valid, valid-checksum address of a 16/33 byte key, long} x data {nil, empty, 1, 31, 32, 33, 64, 1 MiB, own address, challenge / known hash} x hash {nil..64, the right digest} x signature {nil..64, the right signature}; for Transaction requests (Propose, Confirm, GossipTrx) and Vertex requests (GossipVrx) every field one at a time with the same shape classes (sub-messages nil/empty/valid), sampled pairs, stale and re-signed with the real key so that code behind the signature check is reached, combined with gossiper lists {nil, [empty], [valid], short/nil/long digest, short-key address, short signature, 300 entries}; ConnectionData (Announce, Discover) as a product. Client side: the missing-parent pull with peers answering GetVertex with shaped vertices, and the DAG sync against an in-memory (bufconn) peer streaming shaped vertices. Plus PRNG structural mutation of serialised valid requests (kept when proto.Unmarshal accepts them); this is not coverage guided. Verdicts: a recovered panic, or a worker crash (panic in a goroutine the handler started, attributed through the journal) is a violation; for a call that returned an error the digest of ledger snapshot (without the orphan buffer), awaiting listings of all known addresses and peer table must be unchanged. Non-trivial = every call; distinct by (service.rpc, shape, outcome). Refused vertices that reference existing state are included: vertices carrying an awaiting transaction with something else wrong, and vertices under the hash of a vertex the node holds (genesis, tips; duplicate suppression cleared as after its 20 s window) naming an awaiting transaction. A state change that consists only of awaiting entries first observed at least 4.5 minutes earlier is the cache's own 5 minute expiry, not an effect of the request.",
+			Rule:        "Every handler of the notary, gossip and webhooks services (built through the hooks on one real node with real ledger, caches, challenge provider, juggler and stub peers) is called directly under recover(). Request shapes: for SignedHash requests (Reject, Saved, Balance, Waiting, TransactionsInDAG, GetVertex, Webhooks) the full product of address {empty, junk, valid, valid-checksum address of a 16/33 byte key, long} x data {nil, empty, 1, 31, 32, 33, 64, 1 MiB, own address, challenge / known hash} x hash {nil..64, the right digest} x signature {nil..64, the right signature}; for Transaction requests (Propose, Confirm, GossipTrx) and Vertex requests (GossipVrx) every field one at a time with the same shape classes (sub-messages nil/empty/valid), sampled pairs, stale and re-signed with the real key so that code behind the signature check is reached, combined with gossiper lists {nil, [empty], [valid], short/nil/long digest, short-key address, short signature, 300 entries}; ConnectionData (Announce, Discover) as a product. Client side: the missing-parent pull with peers answering GetVertex with shaped vertices, and the DAG sync against an in-memory (bufconn) peer streaming shaped vertices. Plus PRNG structural mutation of serialised valid requests (kept when proto.Unmarshal accepts them); this is not coverage guided. Verdicts: a recovered panic, or a worker crash (panic in a goroutine the handler started, attributed through the journal) is a violation; for a call that returned an error the digest of ledger snapshot (without the orphan buffer), awaiting listings of all known addresses and peer table must be unchanged. Non-trivial = every call; distinct by (service.rpc, shape, outcome). One batch calls the read endpoints from 16 goroutines at once with fresh, expired (one second challenge life), foreign and missing challenges (a crash there ends the worker and is attributed by the journal). Refused vertices that reference existing state are included: vertices carrying an awaiting transaction with something else wrong, and vertices under the hash of a vertex the node holds (genesis, tips; duplicate suppression cleared as after its 20 s window) naming an awaiting transaction. A state change that consists only of awaiting entries first observed at least 4.5 minutes earlier is the cache's own 5 minute expiry, not an effect of the request.",
 			Assumptions: []string{"a request is never a nil message (gRPC never delivers one); repeated fields never hold nil elements (not producible by decoding)", "the orphan buffer is not part of 'the ledger': a vertex arriving before its parent is reported as an error and parked"},
 			MinEvals:    3000, MinNontriv: 500,
 		},
